@@ -1,7 +1,7 @@
 (* Executable instances of the numeric kernels: binary64 / binary32 bit patterns and integers. *)
 From Coq Require Import List Arith ZArith Lia Bool.
 Import ListNotations.
-From NS Require Import Num.Ops Num.Kernels Num.F64 Num.F64Inst Num.F32 Num.F32Inst Num.ZInst Run.RunBase.
+From NS Require Import Num.Ops Num.Kernels Num.Layout Num.F64 Num.F64Inst Num.F32 Num.F32Inst Num.ZInst Run.RunBase.
 Local Open Scope Z_scope.
 
 (* routine selector shared by the three carriers *)
@@ -58,6 +58,10 @@ Definition dev (sel : Z) (a b : list Z) (trav : list nat) : list Z :=
 End G.
 
 Definition tabs := list (Z * Z).
+From NS Require Export Num.Layout.
+(* the layout of a view as the harness observed it on the real ndarray array (shape, strides in elements) *)
+Definition mkL (shape strides : list Z) : layout := {| l_shape := map Z.to_nat shape; l_strides := strides |}.
+
 Definition f64_stat1 (lt et : tabs) := stat1 (f64_ops lt et) f64_of_bits bits_of_f64.
 Definition f64_stat2 (lt et : tabs) := stat2 (f64_ops lt et) f64_of_bits bits_of_f64.
 Definition f64_stat_axis (lt et : tabs) := stat_axis (f64_ops lt et) f64_of_bits bits_of_f64.
